@@ -29,21 +29,6 @@ theorem C08_chain_fuel_sufficient {α : Type} (G : Graph) (hac : Acyclic G) (vis
     (hv : ∀ c, visit c ≠ none) (ext : Option Name) : walkUp G visit (classFuel G) ext ≠ .fuel :=
   walkUp_no_fuel G hac.1 visit hv ext
 
-/-- what each of the four implementations needs beyond acyclicity -/
-def KindOK (G : Graph) (c : Cls) : Kind → Prop
-  | .op => WF G ∧ Declared G c
-  | .param => True
-  | .this => True
-  | .thrown => ThrowableOK G c
-
-theorem decides_of_kind (G : Graph) (hac : Acyclic G) (k : Kind) (c : Cls) (t : Name) (hok : KindOK G c k) :
-    Decides (isInstanceOf G k c t) (IsA G c t) := by
-  cases k with
-  | op => exact instanceofOp_spec G hok.1 hac t c hok.2
-  | param => exact isClassValue_spec G hac.1 t c
-  | this => exact isThisValue_spec G hac.1 t c
-  | thrown => exact isThrown_spec G hac.1 t c hok
-
 /-- **instanceof ⇔ reachability.** On an acyclic hierarchy each of the four implementations — the `instanceof`
 operator (`checkClassIs`), a typed parameter receiving an object (`isClassValueInstanceOf`), a typed parameter
 receiving `$this` (`Class.Is` arm `*ThisValue`), and `catch (T)` (`catchTypeMatches`) — answers, and answers
